@@ -123,9 +123,9 @@ pub struct FindingEntry {
   #[serde(default)]
   pub signatures: Vec<String>,
   pub description: String,
-  /// path (relative to /verif) of the minimal replay that exhibits it
+  /// paths (relative to /verif) of minimal replays that exhibit it
   #[serde(default)]
-  pub witness: Option<String>,
+  pub witnesses: Vec<String>,
   /// for fixed entries: the fix commit in /repo
   #[serde(default)]
   pub commit: Option<String>,
@@ -399,6 +399,7 @@ where
           ..Config::default()
         };
         let mut runner = TestRunner::new(cfg);
+        let survey = std::env::var("VERIF_SURVEY").is_ok();
         let strategy = mk_strategy();
         let stats = std::cell::RefCell::new(Stats::default());
         let failed = std::cell::Cell::new(false);
@@ -457,6 +458,14 @@ where
               }
               if counting {
                 stats.borrow_mut().evaluations += 1;
+              }
+              if survey {
+                // development aid (VERIF_SURVEY=1): tally every distinct failing signature
+                // instead of stopping at the first; never used by registered commands
+                let mut st = stats.borrow_mut();
+                let e = st.excluded.entry(format!("SURVEY {} :: {}", f.signature, f.message)).or_default();
+                *e += 1;
+                return Ok(());
               }
               failed.set(true);
               stop.store(true, Ordering::Relaxed);
@@ -529,15 +538,17 @@ impl Check {
         keep.push(f);
         continue;
       }
-      let still = match &f.witness {
-        Some(w) => {
+      // still failing = at least one witness still fails with one of the listed signatures
+      let still = if f.witnesses.is_empty() {
+        true
+      } else {
+        f.witnesses.iter().any(|w| {
           let r = read_replay(w);
           match run(&r) {
             Some(fl) => f.signatures.iter().any(|s| *s == fl.signature),
             None => false,
           }
-        }
-        None => true,
+        })
       };
       if still {
         let line = format!("KNOWN-FINDING: property={} {} — {}", prop, f.id, f.description);
@@ -559,7 +570,7 @@ impl Check {
       if f.property != prop || f.status != "fixed" {
         continue;
       }
-      if let Some(w) = &f.witness {
+      for w in &f.witnesses {
         let r = read_replay(w);
         self.stats.class("regression_replays");
         self.stats.evaluations += 1;
